@@ -159,6 +159,13 @@ Theorem env_only_when_requested_history : forall rf T f env calls on,
 Proof. exact load_history_independent. Qed.
 Print Assumptions env_only_when_requested_history.
 
+(* conf.UseEnv() matters only where a '$' stands: a document without '$' in any key or string value
+   loads the same with and without the option, under every environment *)
+Theorem use_env_irrelevant_without_dollar : forall rf T f env d use_env,
+  doc_has_dollar d = false -> load_file rf T f use_env env d = load_doc rf T f d.
+Proof. exact ProofsF.use_env_irrelevant_without_dollar. Qed.
+Print Assumptions use_env_irrelevant_without_dollar.
+
 Theorem env_off_call_ignores_environment : forall rf T f env env' before d after on,
   nth_error (load_history false rf T f env on (before ++ (false, d) :: after)) (List.length before)
   = nth_error (load_history false rf T f env' on (before ++ (false, d) :: after)) (List.length before).
@@ -365,8 +372,9 @@ Proof. vm_compute. split; reflexivity. Qed.
 
 Example ex_env :
   expand_doc [("HOST", "db1")] (DMap (DMcons "dsn" (DStr "tcp://${HOST}:$PORT/x") DMnil))
-  = DMap (DMcons "dsn" (DStr "tcp://db1:/x") DMnil).
-Proof. vm_compute. reflexivity. Qed.
+  = DMap (DMcons "dsn" (DStr "tcp://db1:/x") DMnil) /\
+  expand_str [("A", "v")] "a$$b|${}|$1x|$?|${A}|$-|$A.|${A|50%$" = "ab||x||v||v.|A|50%$".
+Proof. vm_compute. split; reflexivity. Qed.
 
 (* the hypotheses of agrees_with_stdjson hold of a document both decoders accept *)
 Definition ex_plain : fields :=
